@@ -229,7 +229,9 @@ func (r *Runner) builtin(ctx context.Context, pos syntax.Pos, name string, args 
 				if !r.unsetElem(name, sub) {
 					exit.code = 1
 				}
-			} else if vars && r.lookupVar(arg).IsSet() {
+			} else if vars && r.lookupVar(arg).Declared() {
+				// Not just set variables; a local variable which was unset
+				// still hides the variable of the same name in a calling scope.
 				r.delVar(arg)
 			} else if _, ok := r.Funcs[arg]; ok && funcs {
 				delete(r.Funcs, arg)
